@@ -32,6 +32,7 @@ FIRST = {
     "r3_c03_c1_conflict_aware_merge_stale_transition": "MISSED (same mechanism as r3_c03_b1, written independently)",
     "r4_c14_b1_backtrace_in_internal_error": "MISSED (std caches `RUST_BACKTRACE` at its first use in the process; every worker's first call was a canonical, clean one, so nothing ever differed in-process or between workers)",
     "r4_c14_b2_capitalization_check_over_hashmap": "MISSED (never two badly capitalised *top-level* names in one text)",
+    "r4_c03_a2_memoised_item_closures_partial_on_cycles": "MISSED (indirect left recursion only through 2-3 nonterminals, and never a cycle member used outside the cycle with the same follower terminal as inside)",
 }
 
 
